@@ -7,7 +7,7 @@ import json
 import os
 import subprocess
 
-from . import impl
+from . import impl, internals
 from .common import REPO, PY
 
 
@@ -102,8 +102,12 @@ def interp(c, m, objs, log):
 
 
 def module_state(m):
+    """(try depth, awaiting stack length, handler stack length), or None when the names can no longer be found"""
     D, R = m["deferred"], m["reports"]
-    return (D.try_compute.depth, len(D.Awaiting.awaiting_stack), len(R.handle_reports.handlers_stack))
+    try:
+        return (internals.try_depth(D), len(internals.awaiting_stack(D)), len(internals.handlers_stack(R)))
+    except internals.TieBroken:
+        return None
 
 
 POOL_VALID = [".once\nmov #2, r0\n", ".once\n.end\n", "mov #1, r0\nbr .\n", "a = 5\n.word a, b\nb = a + 2\n", ".ascii /hi/\n.even\nx: .word x\n", ".link 2000\nstart: jmp start\n.blkb 10\n",
@@ -134,13 +138,21 @@ def run(ctx):
                 "probe in a fresh state, module variables read after every step; (c) the same batch in fresh processes under several "
                 "PYTHONHASHSEED values; (d) AST audit of every write to the module state. distinct = distinct computations / histories")
     D, R = m["deferred"], m["reports"]
-    if module_state(m) != (0, 0, 0):
+    have_internals = module_state(m) is not None
+    if not have_internals:
+        # the module-level state the State model speaks about cannot be read any more: that tie is broken; the
+        # histories and hash-seed runs below (which need no internals) are the search for a failing input
+        try:
+            internals.try_depth(D), internals.awaiting_stack(D), internals.handlers_stack(R)
+        except internals.TieBroken as tb:
+            ctx.disagree("tie to the module-level state of deferred.py / reports.py", {"missing": str(tb)}, "depth, awaiting stack, handler stack", "not found")
+    if have_internals and module_state(m) != (0, 0, 0):
         ctx.violation("module state is not initial at start", {}, expected=(0, 0, 0), observed=module_state(m))
     # ------------------------------------------------------------------ (a)
     class Obj:
         def __init__(self):
             self.is_awaiting = False
-    comps = [gen_comp(rng, rng.randint(1, 6), False) for _ in range(8000 if ctx.thorough else 2000)]
+    comps = [gen_comp(rng, rng.randint(1, 6), False) for _ in range(8000 if ctx.thorough else 2000)] if have_internals else []
     answers = ctx.driver.ask(["state " + " ".join(wire(c)) for c in comps])
     names = {D.NotReadyError: "notReady", D.DeferredCycle: "cycle", R.RecoverableError: "recoverable", R.UnrecoverableError: "unrecoverable",
              _Other1: "other1", _Other2: "other2"}
@@ -164,9 +176,9 @@ def run(ctx):
             ctx.violation("a bracketed computation left module state behind", {"computation": " ".join(wire(c))},
                           expected="depth 0, empty stacks, no is_awaiting flag", observed={"state": st, "flags": flags})
             # repair for the following cases
-            D.try_compute.depth = 0
-            del D.Awaiting.awaiting_stack[:]
-            del R.handle_reports.handlers_stack[:]
+            internals.set_try_depth(D, 0)
+            del internals.awaiting_stack(D)[:]
+            del internals.handlers_stack(R)[:]
     # ------------------------------------------------------------------ (b)
     n_hist = 400 if ctx.thorough else 40
     for _ in range(n_hist):
@@ -174,7 +186,7 @@ def run(ctx):
         bad_state = None
         for src in hist:
             run_one(src)
-            if module_state(m) != (0, 0, 0) and bad_state is None:
+            if have_internals and module_state(m) != (0, 0, 0) and bad_state is None:
                 bad_state = (src, module_state(m))
         probe = rng.choice(PROBES)
         got = run_one(probe)
